@@ -5,9 +5,8 @@ From Verif Require Import X86.X86Model X86.X86Proofs X86.X86Denote.
 Import ListNotations.
 Local Open Scope Z_scope.
 
-Section WithDb.
+Section WithBucket.
   Variable bucket : Z -> list row.
-  Variable row_of : Z -> option row.
 
   (* every member of a denotation comes from the structural decoder, a row of the opcode's bucket, the row's constraints
      and the inverse operand map; its length is the number of bytes the structural decoder consumed *)
@@ -31,48 +30,6 @@ Section WithDb.
     exists h, rest, r, s, r2. repeat split; auto. exists ops'. auto.
   Qed.
 
-  (* verdict 0 of `judge`: some denotation of the bytes is a database form of the called mnemonic whose operands and
-     decorations match the call, and it consumes exactly all the bytes (nothing else was appended) *)
-  Theorem judge_ok_spec : forall m name ops dc bs,
-    fst (judge bucket row_of m name ops dc bs) = 0 ->
-    exists rid dops dd r,
-      In (rid, dops, dd, length bs) (denote bucket m bs) /\ row_of rid = Some r /\ r_name r = name /\
-      deco_match dc dd = true /\
-      (ops_match m (r_ops r) (op_bits (r_ops r)) ops dops = true \/
-       ops_match m (explicit_specs (r_ops r)) (op_bits (r_ops r)) ops (explicit_only (r_ops r) dops) = true).
-  Proof.
-    intros m name ops dc bs. unfold judge.
-    set (cands := denote bucket m bs).
-    match goal with |- context [filter ?f cands] => set (flt := f) end.
-    destruct cands as [|c0 cs] eqn:Ec; [cbn; discriminate|].
-    destruct (filter flt (c0 :: cs)) as [|g gs] eqn:Eg; [cbn; discriminate|].
-    destruct (existsb _ (g :: gs)) eqn:Ex; [|cbn; discriminate].
-    intros _. apply existsb_exists in Ex. destruct Ex as [[[[rid dops] dd] len] [Hin Hlen]].
-    apply Nat.eqb_eq in Hlen. subst len.
-    rewrite <- Eg in Hin. apply filter_In in Hin. destruct Hin as [Hc Hf].
-    unfold flt in Hf. destruct (row_of rid) as [r|] eqn:Er; [|discriminate].
-    apply andb_prop in Hf. destruct Hf as [Hf Ho]. apply andb_prop in Hf. destruct Hf as [Hn Hd].
-    apply Z.eqb_eq in Hn. apply orb_prop in Ho.
-    exists rid, dops, dd, r. repeat split; auto.
-  Qed.
-
-  (* `other_names` lists exactly the full-length denotations whose row names a different mnemonic: when it is empty (or
-     only reviewed aliases), the denotation of the bytes is unique up to operands *)
-  Theorem other_names_spec : forall m name bs rid,
-    In rid (other_names bucket row_of m name bs) <->
-    exists ops dd r, In (rid, ops, dd, length bs) (denote bucket m bs) /\ row_of rid = Some r /\ r_name r <> name.
-  Proof.
-    intros m name bs rid. unfold other_names. rewrite in_flat_map. split.
-    - intros [[[[rid' ops] dd] len] [Hin Hx]].
-      destruct (row_of rid') as [r|] eqn:Er; [|contradiction].
-      destruct (Nat.eqb len (length bs) && negb (r_name r =? name)) eqn:Ec; [|contradiction].
-      destruct Hx as [<-|[]]. apply andb_prop in Ec. destruct Ec as [E1 E2].
-      apply Nat.eqb_eq in E1. subst len. apply negb_true_iff, Z.eqb_neq in E2.
-      exists ops, dd, r. auto.
-    - intros [ops [dd [r [Hin [Er Hn]]]]]. exists (rid, ops, dd, length bs). split; [exact Hin|].
-      rewrite Er. rewrite Nat.eqb_refl. apply Z.eqb_neq in Hn. rewrite Hn. left. reflexivity.
-  Qed.
-
   (* completeness on specification encodings: the structural encoding (any admissible encoder choice, any following
      bytes) of a well-formed instruction that satisfies the constraints of a database row of its opcode bucket denotes that
      row with the operands of the inverse operand map and exactly the emitted length -- for all register ids,
@@ -91,4 +48,75 @@ Section WithDb.
     replace (length (senc m sh s c ++ rest) - length rest)%nat with (length (senc m sh s c)) by (rewrite app_length; lia).
     reflexivity.
   Qed.
+End WithBucket.
+
+Section WithDb.
+  Variable bucket : Z -> list row.
+  Variable wbucket : Z -> list row.
+  Variable row_of : Z -> option row.
+
+  (* the two readings of `denote2`: one instruction, or FWAIT (9B) followed by a wait row denoting the rest *)
+  Theorem denote2_cases : forall m bs rid ops dd len,
+    In (rid, ops, dd, len) (denote2 bucket wbucket m bs) ->
+    In (rid, ops, dd, len) (denote bucket m bs) \/
+    exists rest len', bs = 155 :: rest /\ len = S len' /\ In (rid, ops, dd, len') (denote wbucket m rest).
+  Proof.
+    intros m bs rid ops dd len H. unfold denote2 in H. apply in_app_or in H. destruct H as [H|H]; [left; exact H|right].
+    destruct bs as [|b rest]; [contradiction|]. destruct (b =? 155) eqn:E; [|contradiction].
+    apply Z.eqb_eq in E. subst b. apply in_map_iff in H. destruct H as [[[[rid' ops'] dd'] len'] [Hb Hin]].
+    cbn in Hb. inversion Hb; subst. exists rest, len'. auto.
+  Qed.
+
+  Theorem denote2_wait : forall m rest rid ops dd len,
+    In (rid, ops, dd, len) (denote wbucket m rest) -> In (rid, ops, dd, S len) (denote2 bucket wbucket m (155 :: rest)).
+  Proof.
+    intros m rest rid ops dd len H. unfold denote2. apply in_or_app. right. rewrite Z.eqb_refl.
+    apply in_map_iff. exists (rid, ops, dd, len). split; [reflexivity|exact H].
+  Qed.
+
+  Theorem denote2_plain : forall m bs x, In x (denote bucket m bs) -> In x (denote2 bucket wbucket m bs).
+  Proof. intros m bs x H. unfold denote2. apply in_or_app. left. exact H. Qed.
+
+  (* verdict 0 of `judge`: some denotation of the bytes is a database form of the called mnemonic whose operands and
+     decorations match the call, and it consumes exactly all the bytes (nothing else was appended) *)
+  Theorem judge_ok_spec : forall m name ops dc bs,
+    fst (judge bucket wbucket row_of m name ops dc bs) = 0 ->
+    exists rid dops dd r,
+      In (rid, dops, dd, length bs) (denote2 bucket wbucket m bs) /\ row_of rid = Some r /\ r_name r = name /\
+      deco_match dc dd = true /\
+      (ops_match m (r_ops r) (op_bits (r_ops r)) ops dops = true \/
+       ops_match m (explicit_specs (r_ops r)) (op_bits (r_ops r)) ops (explicit_only (r_ops r) dops) = true).
+  Proof.
+    intros m name ops dc bs. unfold judge.
+    set (cands := denote2 bucket wbucket m bs).
+    match goal with |- context [filter ?f cands] => set (flt := f) end.
+    destruct cands as [|c0 cs] eqn:Ec; [cbn; discriminate|].
+    destruct (filter flt (c0 :: cs)) as [|g gs] eqn:Eg; [cbn; discriminate|].
+    destruct (existsb _ (g :: gs)) eqn:Ex; [|cbn; discriminate].
+    intros _. apply existsb_exists in Ex. destruct Ex as [[[[rid dops] dd] len] [Hin Hlen]].
+    apply Nat.eqb_eq in Hlen. subst len.
+    rewrite <- Eg in Hin. apply filter_In in Hin. destruct Hin as [Hc Hf].
+    unfold flt in Hf. destruct (row_of rid) as [r|] eqn:Er; [|discriminate].
+    apply andb_prop in Hf. destruct Hf as [Hf Ho]. apply andb_prop in Hf. destruct Hf as [Hn Hd].
+    apply Z.eqb_eq in Hn. apply orb_prop in Ho.
+    exists rid, dops, dd, r. repeat split; auto.
+  Qed.
+
+  (* `other_names` lists exactly the full-length denotations whose row names a different mnemonic: when it is empty (or
+     only reviewed aliases), the denotation of the bytes is unique up to operands *)
+  Theorem other_names_spec : forall m name bs rid,
+    In rid (other_names bucket wbucket row_of m name bs) <->
+    exists ops dd r, In (rid, ops, dd, length bs) (denote2 bucket wbucket m bs) /\ row_of rid = Some r /\ r_name r <> name.
+  Proof.
+    intros m name bs rid. unfold other_names. rewrite in_flat_map. split.
+    - intros [[[[rid' ops] dd] len] [Hin Hx]].
+      destruct (row_of rid') as [r|] eqn:Er; [|contradiction].
+      destruct (Nat.eqb len (length bs) && negb (r_name r =? name)) eqn:Ec; [|contradiction].
+      destruct Hx as [<-|[]]. apply andb_prop in Ec. destruct Ec as [E1 E2].
+      apply Nat.eqb_eq in E1. subst len. apply negb_true_iff, Z.eqb_neq in E2.
+      exists ops, dd, r. auto.
+    - intros [ops [dd [r [Hin [Er Hn]]]]]. exists (rid, ops, dd, length bs). split; [exact Hin|].
+      rewrite Er. rewrite Nat.eqb_refl. apply Z.eqb_neq in Hn. rewrite Hn. left. reflexivity.
+  Qed.
+
 End WithDb.
